@@ -39,4 +39,38 @@ inductive Step where
   | bday (n : Int)
   deriving Repr, DecidableEq, Inhabited
 
+/-- the Python class of `res = t.astype(datetime.datetime)` in `np2dt`: numpy gives a `datetime.datetime` for the units h..us, a
+`datetime.date` for Y, M, W, D and a plain `int` for ns and finer (and for any value outside year 1..9999) -/
+inductive NpRes where
+  | datetime
+  | date
+  | int
+  deriving Repr, DecidableEq, Inhabited
+
+/-- `isinstance(res, datetime.datetime)` -/
+def NpRes.isDatetime : NpRes → Bool
+  | .datetime => true
+  | _ => false
+
+/-- `isinstance(res, datetime.date)`: `datetime.datetime` is a subclass of `datetime.date` -/
+def NpRes.isDate : NpRes → Bool
+  | .datetime => true
+  | .date => true
+  | .int => false
+
+/-- `is_int(res)` -/
+def NpRes.isInt : NpRes → Bool
+  | .int => true
+  | _ => false
+
+/-- what a branch of `np2dt` returns -/
+inductive NpAct where
+  /-- `res` itself -/
+  | same
+  /-- `datetime.datetime(res.year, res.month, res.day)` -/
+  | midnight
+  /-- `pd.Timestamp(t)` of the datetime64 itself -/
+  | pdTimestamp
+  deriving Repr, DecidableEq, Inhabited
+
 end Pyg.Gen
